@@ -867,26 +867,26 @@ def normalize_seq_body(ctx, case):
 
 
 SUBCHECKS = [
-    Sub("trend", "hyp", sticky(trend_body), strategy=trend_case, quick=400, thorough=10000,
+    Sub("trend", "hyp", sticky(trend_body), strategy=trend_case, quick=400, thorough=5000,
         clause="process.trend / linear_trend add f(x_i) resp. f(x_i/(x_last-x_first)); x and the caller's arrays "
                "untouched; zero trend is the identity"),
-    Sub("additive", "hyp", sticky(additive_body), strategy=additive_case, quick=400, thorough=10000,
+    Sub("additive", "hyp", sticky(additive_body), strategy=additive_case, quick=400, thorough=5000,
         clause="trends add up: trend(g) after trend(f) == trend(f+g) == y + f + g (process and Weaver level)"),
-    Sub("weaver_trend", "hyp", sticky(weaver_trend_body), strategy=weaver_trend_case, quick=400, thorough=10000,
+    Sub("weaver_trend", "hyp", sticky(weaver_trend_body), strategy=weaver_trend_case, quick=400, thorough=5000,
         clause="Weaver.trend: same closed form; x, reference, original and caller arrays untouched"),
-    Sub("shift_scale", "hyp", sticky(shift_scale_body), strategy=shift_scale_case, quick=400, thorough=10000,
+    Sub("shift_scale", "hyp", sticky(shift_scale_body), strategy=shift_scale_case, quick=400, thorough=5000,
         clause="shift_x/shift_y/scale_x/scale_y act as x+s, y+s, c*x, c*y (bitwise) on working and reference series "
                "after every step of a 1..5 step program; original and caller arrays untouched"),
-    Sub("normalize", "hyp", sticky(normalize_body), strategy=normalize_case, quick=400, thorough=10000,
+    Sub("normalize", "hyp", sticky(normalize_body), strategy=normalize_case, quick=400, thorough=5000,
         clause="process.normalize: min -> min_val exactly, max -> max_val (2 ulp), order and relative spacing kept"),
-    Sub("weaver_normalize", "hyp", sticky(weaver_normalize_body), strategy=weaver_normalize_case, quick=400, thorough=10000,
+    Sub("weaver_normalize", "hyp", sticky(weaver_normalize_body), strategy=weaver_normalize_case, quick=400, thorough=5000,
         clause="Weaver.normalize_x/_y: the same properties for working and reference series, other coordinate "
                "untouched"),
-    Sub("same_callable", "hyp", sticky(same_callable_body), strategy=same_callable_case, quick=200, thorough=4000,
+    Sub("same_callable", "hyp", sticky(same_callable_body), strategy=same_callable_case, quick=200, thorough=2500,
         clause="every call is judged by the closed form on ITS axis: one callable object applied in sequence to axes "
                "sharing length and end points but not the interior spacing, to caller arrays edited in place, to "
                "the same objects twice after scribbling on the first result, and repeatedly to one long-lived Weaver"),
-    Sub("normalize_seq", "hyp", sticky(normalize_seq_body), strategy=normalize_seq_case, quick=150, thorough=3000,
+    Sub("normalize_seq", "hyp", sticky(normalize_seq_body), strategy=normalize_seq_case, quick=150, thorough=2000,
         clause="normalize is a function of its arguments only: repeated calls on arrays sharing length, first/last "
                "element, minimum and maximum (same object edited in place or fresh) each satisfy the normalise clause"),
 ]
